@@ -57,9 +57,16 @@ def board(i: int, auction: str, dealer: str = 'N', vul: str = 'None', deal=None,
             'auction': auction, 'policy': policy, 'dda': dda}
 
 
-def mk_spec(boards: List[dict], teams=None, notations=None, sequential=False) -> dict:
-    return {'boards': boards, 'teams': teams or {'NS': 'Alpha', 'EW': 'Beta'}, 'notations': notations or {},
-            'sequential': sequential}
+def mk_spec(boards: List[dict], teams=None, notations=None, sequential=False, linger=False, fragment=None) -> dict:
+    """linger: clients stay connected after End of session; fragment='crlf': the network delivers every message in two pieces, the
+    second being the final LF (a read never crosses that boundary)."""
+    d = {'boards': boards, 'teams': teams or {'NS': 'Alpha', 'EW': 'Beta'}, 'notations': notations or {},
+         'sequential': sequential}
+    if linger:
+        d['linger'] = True
+    if fragment:
+        d['fragment'] = fragment
+    return d
 
 
 def plans_of(spec: dict) -> List[P.BoardPlan]:
@@ -77,4 +84,4 @@ def notations_of(spec: dict) -> Dict[str, P.Notation]:
 
 def name_of(spec: dict) -> str:
     bs = '+'.join(f"{b['auction'] if isinstance(b['auction'], str) else 'custom'}/{b['dealer']}/{b['vul']}" for b in spec['boards'])
-    return bs + ('/seq' if spec.get('sequential') else '')
+    return bs + ('/seq' if spec.get('sequential') else '') + ('/linger' if spec.get('linger') else '') + (f"/frag-{spec['fragment']}" if spec.get('fragment') else '')
